@@ -141,6 +141,10 @@ DIRSPECS = [
     ('/r/w/out', '../base', BASE), ('/r/w/base/sub', '..', BASE), ('/r', 'w/blink', BASE),
     (None, '/r/w/base/sub', '/r/w/base/sub'), (None, '/r/w', '/r/w'), (None, '/', '/'), (None, '/r/w/bas', '/r/w/bas'),
     (None, '/r/w/nodir', '/r/w/nodir'), (None, '/r/w/afile', '/r/w/afile'), (None, '/r/w/base-link', '/r/w/base-evil'),
+    # '..' after a directory link: the parent of the link's target, not of the link's name
+    (None, '/r/w/base/lout/..', '/r/w'), (None, '/r/w/out/back/..', '/r/w'), ('/r/w', 'base/lout/..', '/r/w'),
+    (None, '/r/w/base/levil/../base', BASE), ('/r/w/base', 'levil/../base/', BASE), (None, '/r/w/base/sub/lup2/../other', '/r/other'),
+    ('/r/w/out', 'back/../base', BASE),
 ]
 
 
@@ -365,7 +369,7 @@ def gen_cases(seed, tier):
             kind = rnd.random()
             node = F() if kind < 0.5 else (L(rnd.choice(targets)) if kind < 0.85 else {})
             put(tree, where + '/' + nm, node)
-        d = rnd.choice(['/w/base', '/w/base', '/w/base/', '/w/base/a', '/w/b', '/w/l', '/w/m'])
+        d = rnd.choice(['/w/base', '/w/base', '/w/base/', '/w/base/a', '/w/b', '/w/l', '/w/m', '/w/l/..', '/w/base/l/..', '/w/base/m/../base'])
         tree = mark(tree, '/w/base')
         names = gen_names(rnd, tree, '/w/base', 'quick', 40)
         names = names[:20] + rnd.sample(names[20:], min(len(names) - 20, 60 if quick else 300))
